@@ -391,3 +391,17 @@ Definition spec_runner (builder_before flags env builder_after : options) : opti
      o_max_time := first_some [o_max_time na; o_max_time nf; o_max_time ne; o_max_time nb];
      o_skip_ext_time := first_some [o_skip_ext_time na; o_skip_ext_time nf; o_skip_ext_time ne; o_skip_ext_time nb];
      o_ignore := first_some [o_ignore na; o_ignore nf; o_ignore ne; o_ignore nb] |}.
+
+(** [options.skip_ext_time.unwrap_or_default()] (bench loop). *)
+Definition effective_skip_ext (o : options) : bool :=
+  match o_skip_ext_time o with Some b => b | None => false end.
+
+(** [Divan::bytes_format] is a runner-only setting ([true] = binary): a builder
+    call sets it, [config_with_args] overwrites it iff the flag or the
+    [DIVAN_BYTES_FORMAT] variable is present, a later builder call overwrites
+    again; [BytesFormat::default()] is decimal. *)
+Definition bytes_format_level (builder_before flag env builder_after : option bool) : bool :=
+  match opt_or builder_after (opt_or (opt_or flag env) builder_before) with
+  | Some b => b
+  | None => false
+  end.
